@@ -113,6 +113,11 @@ func VxC11Bounds() {
 		decls = []ast.Decl{vxDecl("src", []ast.BaseTerm{vxBoundType("b_src")}), vxDecl("out", []ast.BaseTerm{symbols.NewListType(vxBoundType("b_e"))})}
 		fact1("src")
 		clauses = append(clauses, vxRule(vxA("out", "L"), vxA("src", X), ast.Eq{Left: ast.Variable{Symbol: "L"}, Right: vxFn(symbols.List, X, X)}))
+	case 7: // a declared predicate with both base facts and a rule
+		decls = []ast.Decl{vxDecl("src", []ast.BaseTerm{vxBoundType("b_src")}), vxDecl("out", []ast.BaseTerm{vxBoundType("b_out")})}
+		fact1("src")
+		fact1("out")
+		clauses = append(clauses, vxRule(vxA("out", X), vxA("src", X)))
 	}
 	unit := parse.SourceUnit{Decls: decls, Clauses: clauses}
 	pi, err := analysis.AnalyzeAndCheckBounds([]parse.SourceUnit{unit}, nil, analysis.ErrorForBoundsMismatch)
